@@ -111,6 +111,11 @@ fn alphabet(dist: bool) -> Vec<Item> {
         // malformed fragment frames
         let mut short_hdr = vec![131u8, 69]; short_hdr.extend_from_slice(&5u64.to_be_bytes()); short_hdr.extend_from_slice(&2u64.to_be_bytes()); short_hdr.push(200);
         v.push(Item { name: "frag_header_count_beyond_frame", frames: vec![(frame(&short_hdr, 4), Exp::OneErr)] });
+        // the header announces more atom-cache bytes than follow it (single-frame cases)
+        for (name, refs, trailing) in [("kfrag_refs_1_trailing_0", 1u8, 0usize), ("kfrag_refs_5_trailing_3", 5, 3), ("kfrag_refs_19_trailing_0", 19, 0), ("kfrag_refs_20_trailing_1", 20, 1), ("kfrag_refs_255_trailing_240", 255, 240), ("kfrag_refs_2_trailing_1", 2, 1)] {
+            let mut f = vec![131u8, 69]; f.extend_from_slice(&7u64.to_be_bytes()); f.extend_from_slice(&1u64.to_be_bytes()); f.push(refs); f.extend(std::iter::repeat(0u8).take(trailing));
+            v.push(Item { name, frames: vec![(frame(&f, 4), Exp::OneErr)] });
+        }
         let mut cont_unknown = vec![131u8, 70]; cont_unknown.extend_from_slice(&999u64.to_be_bytes()); cont_unknown.extend_from_slice(&1u64.to_be_bytes()); cont_unknown.extend_from_slice(&[1, 2, 3]);
         v.push(Item { name: "continuation_for_unknown_sequence", frames: vec![(frame(&cont_unknown, 4), Exp::Nothing)] });
     }
@@ -220,6 +225,62 @@ fn execute(case: &Case, alpha: &[Item], ctx: &WorkerCtx) -> ExecResult {
     })
 }
 
+/// 300 copies of one rejected frame, then a valid message with a 200-deep payload: each junk frame costs exactly
+/// one error and nothing it leaves behind may change how the valid message is received.
+fn junk_flood_exec(case: &(usize, bool), ctx: &WorkerCtx) -> ExecResult {
+    let (kind, read_half) = *case;
+    run_rt(async move {
+        let mut res = ExecResult::default();
+        let extra = DIST_HDR | 0x800_0000;
+        let mut cw = match conn_world(ctx, flags_default() | extra, flags_default() | extra).await {
+            Ok(x) => x,
+            Err(e) => { res.violations.push(("could not establish the connection under a conforming peer".into(), json!({"error": e}))); return res; }
+        };
+        cw.w.gates.set_active(&[]);
+        let nest = |pre: &[u8], d: usize| { let mut v = vec![]; for _ in 0..d { v.extend_from_slice(pre); } v.extend_from_slice(&[97, 1]); v };
+        let junk: Vec<u8> = match kind {
+            0 => { let mut b = vec![112u8, 131]; b.extend(nest(&[104, 1], 300)); b }
+            1 => vec![112, 131, 82],
+            2 => vec![131, 68, 0, 104, 2, 97, 1],
+            3 => vec![131, 68, 0, 82],
+            4 => { let mut b = vec![131u8, 68, 0]; b.extend(nest(&[108, 0, 0, 0, 1], 300)); b }
+            _ => vec![112, 131, 104, 2, 97, 1],
+        };
+        let mut deep = RefVal::int(1);
+        for _ in 0..200 { deep = RefVal::Tuple(vec![deep]); }
+        let fin = DistMsg { control: RefVal::Tuple(vec![RefVal::int(2), RefVal::atom(""), my_pid(9)]), payload: Some(deep) };
+        let log: Arc<Mutex<Vec<Result<(RefVal, Option<RefVal>), String>>>> = Arc::new(Mutex::new(vec![]));
+        let l2 = log.clone();
+        let mut conn = cw.conn;
+        let h = tokio::spawn(async move {
+            let mut rh = if read_half { conn.take_read_half() } else { None };
+            loop {
+                let r = match rh.as_mut() { Some(rh) => Connection::receive_message_from_read_half(rh, std::time::Duration::from_secs(1000)).await, None => conn.receive_message().await };
+                let stop = matches!(&r, Err(e) if e.is_connection_closed() || e.is_timeout() || matches!(e, edp_client::Error::Io(_)));
+                l2.lock().unwrap().push(r.map(|(c, p)| (denote(&c.to_term()), p.as_ref().map(denote))).map_err(|e| e.to_string()));
+                if stop || l2.lock().unwrap().len() > 400 { break; }
+            }
+        });
+        let probe = { let l = log.clone(); move || l.lock().unwrap().len() as u64 };
+        const N: usize = 300;
+        for i in 0..N { cw.peer.send(&frame(&junk, 4)); if i % 25 == 24 { cw.w.settle(&mut cw.peer, &probe).await; } }
+        cw.w.settle(&mut cw.peer, &probe).await;
+        cw.peer.send(&frame(&write_pass_through(&fin), 4));
+        cw.w.settle(&mut cw.peer, &probe).await;
+        let panicked = h.is_finished() && matches!(h.await, Err(e) if e.is_panic());
+        let got = log.lock().unwrap().clone();
+        let errs = got.iter().take_while(|r| r.is_err()).count();
+        let ok_final = matches!(got.get(errs), Some(Ok((c, p))) if exact_eq(c, &fin.control) && p.as_ref().map(|p| exact_eq(p, fin.payload.as_ref().unwrap())).unwrap_or(false));
+        if panicked || errs != N || !ok_final || got.len() != N + 1 {
+            res.violations.push(("a run of rejected frames changes what is received after it".into(), json!({"junk_frame": vcore::report::hex(&junk), "copies": N, "entry": if read_half { "receive_message_from_read_half" } else { "receive_message" }, "errors_surfaced": errs, "results": got.len(), "panicked": panicked,
+                "after_the_run": got.get(errs).map(|r| match r { Ok((c, _)) => format!("Ok({})", c.short()), Err(e) => format!("Err({})", e) })})));
+        }
+        res.steps = N as u64 + 1;
+        res.outcome = format!("flood {} errs {}", kind, errs);
+        res
+    })
+}
+
 pub fn run(rep: &Report) -> Value {
     let thorough = rep.thorough();
     let mut total = Stats { executions: 0, transitions: 0, distinct_outcomes: 0, max_points: 0, bound_completed: 0, exhaustive: true, unstable: 0, diverged: 0, samples: vec![], outcomes: Default::default() };
@@ -263,7 +324,11 @@ pub fn run(rep: &Report) -> Value {
         total.executions += st.executions; total.transitions += st.transitions; total.distinct_outcomes += st.distinct_outcomes; total.unstable += st.unstable;
         parts.push(json!({"configuration": name, "cases": cases.len(), "alphabet": alpha.iter().map(|a| a.name).collect::<Vec<_>>(), "distinct_outcomes": st.distinct_outcomes}));
     }
+    let floods: Vec<(usize, bool)> = (0..6usize).flat_map(|k| [(k, false), (k, true)]).collect();
+    let st_f = for_all(rep, "300 rejected frames, then a valid deep message", &floods, |c, ctx| junk_flood_exec(c, ctx));
+    total.executions += st_f.executions; total.transitions += st_f.transitions;
     json!({
+        "junk_flood_executions": st_f.executions,
         "states": total.executions,
         "transitions": total.transitions,
         "traces_validated_against_impl": total.executions,
@@ -272,6 +337,6 @@ pub fn run(rep: &Report) -> Value {
         "configurations": parts,
         "distinct_outcomes": total.distinct_outcomes,
         "unstable_failures_not_reported": total.unstable,
-        "rule": "every sequence of <= 2 (3 thorough; 3 over a reduced alphabet in quick) peer frames from an alphabet of 14-21 frames (8 pass-through control kinds with payloads up to 2 KiB (+ the remaining 22 operations of the protocol table as single-frame cases), tick, 5 malformed frames; with distribution headers negotiated also header messages in identity and non-identity cache slots, an atom-less header, messages cut into 2 and 3 fragments by the reference fragmenter, malformed fragment frames), sent whole, byte by byte and with the first frame split at every offset, followed by a final valid message; results of the real receive loop compared with the reference receiver; both receive entry points",
+        "rule": "every sequence of <= 2 (3 thorough; 3 over a reduced alphabet in quick) peer frames from an alphabet of 14-21 frames (8 pass-through control kinds with payloads up to 2 KiB (+ the remaining 22 operations of the protocol table as single-frame cases), tick, 5 malformed frames; with distribution headers negotiated also header messages in identity and non-identity cache slots, an atom-less header, messages cut into 2 and 3 fragments by the reference fragmenter, malformed fragment frames), sent whole, byte by byte and with the first frame split at every offset, followed by a final valid message; results of the real receive loop compared with the reference receiver; both receive entry points; plus 12 executions in which 300 copies of one rejected frame (over-nested term, frame ending at a tag or right after ATOM_CACHE_REF, with and without a distribution header) are followed by a valid message with a 200-deep payload",
     })
 }
